@@ -569,6 +569,8 @@ fn pairwise(cfg: &Config, pool: &[&'static str], calls: &mut u64, rep: &mut Repo
 /// length and every boundary offset up to four machine words occurs): all these tuples are different and must be
 /// different children of one vector.
 const SHIFT_TEXT: &str = "frontendus-east-1a-zone1-rack0042";
+/// 131 bytes: two boundaries can both fall on multiples of 64
+const SHIFT_TEXT_LONG: &str = "frontendus-east-1a-zone1-rack0042/service=checkout/instance=10.20.30.40:9100/job=node_exporter_textfile/tenant=blue-green-canary-0007";
 
 fn boundary_shift(cfg: &Config, calls: &mut u64) -> Option<(String, String)> {
     let arity = cfg.names.len();
@@ -581,11 +583,22 @@ fn boundary_shift(cfg: &Config, calls: &mut u64) -> Option<(String, String)> {
             for i in 0..=n {
                 tuples.push(vec![&SHIFT_TEXT[..i], &SHIFT_TEXT[i..]]);
             }
+            for i in 0..=SHIFT_TEXT_LONG.len() {
+                tuples.push(vec![&SHIFT_TEXT_LONG[..i], &SHIFT_TEXT_LONG[i..]]);
+            }
         }
         _ => {
             for i in 0..=n {
                 for j in i..=n {
                     tuples.push(vec![&SHIFT_TEXT[..i], &SHIFT_TEXT[i..j], &SHIFT_TEXT[j..]]);
+                }
+            }
+            // the long text: cuts at and next to the multiples of 8 and 64
+            let l = SHIFT_TEXT_LONG.len();
+            let near: Vec<usize> = (0..=l).filter(|i| i % 8 == 0 || i % 64 == 1 || i % 64 == 63 || *i == l).collect();
+            for &i in &near {
+                for &j in near.iter().filter(|j| **j >= i) {
+                    tuples.push(vec![&SHIFT_TEXT_LONG[..i], &SHIFT_TEXT_LONG[i..j], &SHIFT_TEXT_LONG[j..]]);
                 }
             }
         }
@@ -678,7 +691,7 @@ fn main() {
         std::process::exit(1);
     }
     rep.rule = format!(
-        "for each of 8 vector kinds x label-name configurations (arity 1..3, sorted and unsorted declaration order, with/without constant labels): (1) all tuples of POOL^arity requested in one vector by list form and by map form (every key insertion order), distinct increments, wrong-arity / wrong-key requests, removal by both forms; (2) every ordered pair of tuples in a fresh vector; (3) local kinds: child removed through the shared vector, local removal fails, tuple requested again; (4) one 33-byte text cut into arity consecutive pieces at every position, all in one vector. POOL={:?} (quick uses the first 11 values for arity 3 and for arity-2 pairs; pairs of arity 3 use the first 6). distinct = distinct (kind, config, scenario, children) outcome classes",
+        "for each of 8 vector kinds x label-name configurations (arity 1..3, sorted and unsorted declaration order, with/without constant labels): (1) all tuples of POOL^arity requested in one vector by list form and by map form (every key insertion order), distinct increments, wrong-arity / wrong-key requests, removal by both forms; (2) every ordered pair of tuples in a fresh vector; (3) local kinds: child removed through the shared vector, local removal fails, tuple requested again; (4) a 33-byte and a 131-byte text cut into arity consecutive pieces at every position (arity 3, long text: at and next to the multiples of 8 and 64), all in one vector. POOL={:?} (quick uses the first 11 values for arity 3 and for arity-2 pairs; pairs of arity 3 use the first 6). distinct = distinct (kind, config, scenario, children) outcome classes",
         POOL
     );
     rep.bounds = json!({"pool_size": POOL.len(), "arities": [1,2,3], "kinds": KINDS.iter().map(|k| format!("{:?}", k)).collect::<Vec<_>>()});
